@@ -322,3 +322,39 @@ func nonReadingShutdownCase(c *core.Ctx, r *core.Rand, i int) {
 	}
 	c.Count("census_checks", 1)
 }
+
+// vendorRefusalCase: a vendor operation routed through HandleFunc with the generic payload type, whose handler returns
+// an error. The request is answered with a failed item; the connection, other connections and the process live on.
+func vendorRefusalCase(c *core.Ctx, r *core.Rand, i int) {
+	w := newWorld()
+	defer func() { w.srv.Shutdown(); <-w.done }()
+	conn, _ := w.l.Dial()
+	defer conn.Close()
+	n := 1 + i%3
+	m := kmip.RequestMessage{Header: kmip.RequestHeader{ProtocolVersion: kmip.V1_4, BatchCount: int32(n)}}
+	for k := 0; k < n; k++ {
+		m.BatchItem = append(m.BatchItem, kmip.RequestBatchItem{Operation: vendorRefusedOp, UniqueBatchItemID: []byte{byte(k + 1)},
+			RequestPayload: kmip.NewUnknownPayload(vendorRefusedOp, ttlv.Value{Tag: kmip.TagUniqueIdentifier, Value: fmt.Sprintf("vr%d-%d", i, k)})})
+	}
+	c.Count("vendor_refusals", 1)
+	c.Distinct(core.Hash64("vendor-refusal", fmt.Sprint(n)))
+	resp, err := rawRoundtrip(conn, ttlv.MarshalTTLV(&m))
+	if err != nil {
+		c.Violation("C08:handler-error:vendor-operation:not-answered", fmt.Sprintf("a request for a vendor operation whose handler returns an error is not answered: %v", err), nil)
+		return
+	}
+	if len(resp.BatchItem) != n {
+		c.Violation("C08:handler-error:vendor-operation:wrong-answer", fmt.Sprintf("%d items answered with %d", n, len(resp.BatchItem)), nil)
+		return
+	}
+	for _, bi := range resp.BatchItem {
+		if bi.ResultStatus != kmip.ResultStatusOperationFailed {
+			c.Violation("C08:handler-error:vendor-operation:wrong-answer", "the refused item is not reported failed", nil)
+			return
+		}
+	}
+	id := fmt.Sprintf("vr%d-after-ok", i)
+	if resp, err := rawRoundtrip(conn, request(id)); err != nil || classify(resp) != id {
+		c.Violation("C08:handler-error:vendor-operation:connection-not-served", fmt.Sprintf("after the refused vendor operation the connection is not served: %v", err), nil)
+	}
+}
